@@ -114,6 +114,8 @@ func main() {
 		os.Exit(cmdDump(os.Args[2:]))
 	case "modset":
 		os.Exit(cmdModset(os.Args[2:]))
+	case "replay":
+		os.Exit(cmdReplay(os.Args[2:]))
 	default:
 		fmt.Println("unknown command")
 		os.Exit(2)
@@ -643,6 +645,54 @@ func (eng *Engine) touchesGuarded(fn *ssa.Function, tag string) bool {
 		}
 	}
 	return false
+}
+
+// cmdReplay: "./check --replay <file>": prints what the replay file records and, when it names a replay test,
+// runs that test again on the current /repo with the recorded inputs.
+func cmdReplay(args []string) int {
+	fs := flag.NewFlagSet("replay", flag.ExitOnError)
+	repo := fs.String("repo", "/repo", "")
+	verif := fs.String("verif", "/verif", "")
+	file := fs.String("file", "", "replay file")
+	fs.Parse(args)
+	b, err := os.ReadFile(*file)
+	if err != nil {
+		fmt.Println("cannot read", *file, err)
+		return 2
+	}
+	var rec struct {
+		Property   string `json:"property"`
+		Obligation string `json:"obligation"`
+		Status     string `json:"status"`
+		Position   string `json:"position"`
+		Replay     struct {
+			Confirmed  bool              `json:"confirmed"`
+			Summary    string            `json:"summary"`
+			Driver     string            `json:"driver"`
+			Invocation *ReplayInvocation `json:"invocation"`
+		} `json:"replay"`
+	}
+	if err := json.Unmarshal(b, &rec); err != nil {
+		fmt.Println("bad replay file:", err)
+		return 2
+	}
+	fmt.Printf("property %s, obligation %s (%s) at %s\n", rec.Property, rec.Obligation, rec.Status, rec.Position)
+	fmt.Printf("recorded replay: confirmed=%v %s\n", rec.Replay.Confirmed, rec.Replay.Summary)
+	inv := rec.Replay.Invocation
+	if inv == nil {
+		fmt.Println("no executable replay is recorded for this obligation (the file carries the solver's output)")
+		return 0
+	}
+	raceReplay = inv.Race
+	out, conf := goReplay(&Report{Repo: *repo, Verif: *verif}, inv.Pkg, inv.File, inv.Test, inv.Inputs)
+	if inv.Race {
+		conf = strings.Contains(out, "WARNING: DATA RACE")
+	}
+	fmt.Printf("re-run of %s on the current tree: confirmed=%v\n%s\n", inv.Test, conf, replaySummary(out))
+	if conf {
+		return 1
+	}
+	return 0
 }
 
 func cmdModset(args []string) int {
